@@ -12,6 +12,7 @@ theorem linear_value_core {vals : List Val} {w : List Rat} {out : Val}
     ∃ rows, mapE rowOf vals = .ok rows ∧
       out = .arr false [maxLen rows] (linearOut rows w (maxLen rows)) ∧
       (linearOut rows w (maxLen rows)).length = maxLen rows ∧
+      (∀ r ∈ rows, r.length = 1 ∨ r.length = maxLen rows) ∧
       ∀ s (hs : s < (linearOut rows w (maxLen rows)).length),
         (linearOut rows w (maxLen rows))[s] = dot w (rows.map (bcast · s)) := by
   unfold linearBlend at h
@@ -20,10 +21,15 @@ theorem linear_value_core {vals : List Val} {w : List Rat} {out : Val}
   · rename_i rows hrows
     dsimp only at h
     split at h
-    · cases h
-      refine ⟨rows, hrows, rfl, by simp [linearOut], ?_⟩
-      intro s hs
-      simp [linearOut]
+    · rename_i hall
+      cases h
+      refine ⟨rows, hrows, rfl, by simp [linearOut], ?_, ?_⟩
+      · intro r hr
+        have := List.all_eq_true.mp hall r hr
+        simp only [Bool.or_eq_true, beq_iff_eq] at this
+        exact this.symm
+      · intro s hs
+        simp [linearOut]
     · cases h
 
 theorem mixture_membership_core {vals : List Val} {w : List Rat} {idx : List Nat} {out : Val}
